@@ -448,7 +448,7 @@ def trace_id_uses(ctx, world):
                     ctx.ob("A12.cmp", inst, True, loc_of(mod, rd))
                 else:
                     ctx.fail("A12.cmp", inst, f"{fq}|{norm_text(getattr(rd, '_parent', rd))[:80]}", loc_of(mod, rd), f"trace id used as {why}: `{norm_text(getattr(rd, '_parent', rd))[:80]}`", "results then depend on the absolute value of the depth counter, which is shifted by every differentiation that failed earlier in the process")
-    ctx.floor("A12.cmp reads of trace ids", n, 8)
+    ctx.floor("A12.cmp reads of trace ids", n, 6)
 
 
 def _is_tracestack_expr(world, mod, v, fnode):
